@@ -97,15 +97,12 @@ let show_sres (r : sres) : string =
   match r with
   | SOk -> "s" | SErr e -> "se:" ^ show_ioerr e | SPanic -> "spanic" | SFuel -> "sfuel"
 
-(* the harness is built with overflow checks on (harness/Cargo.toml [profile.dev]) *)
-let ovf = true
-
 let iow_handler (args : string list) : string =
   let max = n_of_string (kv args "max") in
   let vals = items (kv args "vals") in
   let sk = kv args "sink" in
   let es = List.mapi (fun i it -> (enc_of_item it, not (sk <> "-" && i < String.length sk && sk.[i] = 'E'))) vals in
-  let ((rs, w), chunks) = fio_write_run ovf max es in
+  let ((rs, w), chunks) = fio_write_run max es in
   with_spec
     (Printf.sprintf "%s sink=%s buf=%s" (show_list_or_dash (List.map (show_wres "w") rs)) (show_chunks chunks) (hex_or_dash w.w_buf))
     "-"
@@ -116,7 +113,7 @@ let aiow_handler (args : string list) : string =
   let sched = List.map (fun t -> match t with "P" -> KPend | "E" -> KErr | k -> KAccept (n_of_string k)) (items (kv args "sink")) in
   let cs = kv args "calls" in
   let calls = if cs = "-" then [] else List.init (String.length cs) (fun i -> if cs.[i] = 'X' then CDrop else CPoll) in
-  let (((evss, fin), w), k) = aio_write_run ovf max es sched calls in
+  let (((evss, fin), w), k) = aio_write_run max es sched calls in
   let show_ev e = (match e with EvW r -> show_wres "w" r | EvS r -> show_sres r) in
   let evtxt = if evss = [] then "-" else String.concat ";" (List.map (fun evs -> String.concat "," (List.map show_ev evs)) evss) in
   let fintxt = (match fin with SyReady r -> show_sres r | SyPend -> "pend") in
